@@ -14,25 +14,25 @@ type propMeta struct {
 }
 
 var propInfo = map[string]propMeta{
-	"C01": {"exploration", "one case = seeded (knob vector, comparer, key set, single-client program of put/delete/batch/get/has/iterator/transaction/CompactRange/close+reopen, scheduler strategy); every Get/Has and every post-reopen full scan is compared with the ordered-map model. Programs also switch the DB to read-only in the middle of a history (every write entry point must answer ErrReadOnly) and reopen, and every value returned by a Get is kept and must not change while later operations run. Non-trivial: >=3 operations completed and at least one table was written (data left the write buffer). Distinct: distinct event-log hash (storage trace + scheduling decisions)."},
+	"C01": {"exploration", "one case = seeded (knob vector, comparer, key set, single-client program of put/delete/batch/get/has/iterator/transaction/CompactRange/close+reopen, scheduler strategy); every Get/Has and every post-reopen full scan is compared with the ordered-map model. Programs also switch the DB to read-only in the middle of a history (every write entry point must answer ErrReadOnly) and reopen, and every value returned by a Get is kept and must not change while later operations run. A reopen that changes the filter policy lists the previous one in AltFilters (60%); values include the empty value (4%). Non-trivial: >=3 operations completed and at least one table was written (data left the write buffer). Distinct: distinct event-log hash (storage trace + scheduling decisions)."},
 	"C02": {"exploration", "as C01 but iterator-heavy: iterators on DB, snapshots and transactions with nil/non-nil range bounds and random movement scripts (reversals, stepping off an end and back); after every movement the real iterator must equal the reference cursor. Non-trivial: a table was written and >=3 ops completed. Distinct by event-log hash."},
-	"C03": {"exploration", "programs with up to 8 live snapshots and up to 4 long-lived iterators read in seeded order after later writes, deletes, flushes, compactions, fake sleeps >5 min; every read through a snapshot/iterator must equal the model prefix frozen at its creation. Non-trivial: a table was written and >=3 ops. Distinct by event-log hash."},
-	"C04": {"fault_enumeration", "programs mixing sync/non-sync writes, batches, transactions, CompactRange with 1..3 crash points per run placed at the k-th storage operation of a chosen kind/file type (before or after its effect, or inside a write), each with a seeded durable image per file (unsynced tail lost/kept/cut/cut+zero/cut+garbage); after every crash the DB must reopen, a full scan must equal apply(T) for a subset T of issued batches containing every sync-acknowledged batch and committed transaction, then the program continues under all oracles. 20% of the cases are concurrent: 2..6 writers on disjoint keys (sync/non-sync mixes, merged groups), one crash, reopen: every Sync-acknowledged write survives and each client's surviving writes form a prefix-closed, batch-atomic subset. Thorough additionally enumerates every storage event index of sampled programs as the crash point. Non-trivial: a crash fired and a flush or table write had happened. Distinct by event-log hash."},
-	"C05": {"exploration", "2..5 concurrent clients issuing multi-key batches, puts, deletes, gets, snapshot reads and iterator scans over <=8 keys while flush/compaction goroutines run under the seeded scheduler; the recorded history (invoke/return stamped with the scheduler's global step counter) is checked for linearizability against a sequential map with porcupine, plus a cross-key atomicity pre-check. Non-trivial: at least two client operations overlapped. Distinct by event-log hash."},
+	"C03": {"exploration", "programs with up to 8 live snapshots and up to 4 long-lived iterators read in seeded order after later writes, deletes, flushes, compactions, fake sleeps >5 min; every read through a snapshot/iterator must equal the model prefix frozen at its creation. Programs include transactions, whose iterators may outlive Commit/Discard and must stay what they were. Non-trivial: a table was written and >=3 ops. Distinct by event-log hash."},
+	"C04": {"fault_enumeration", "programs mixing sync/non-sync writes, batches, transactions, CompactRange with 1..3 crash points per run placed at the k-th storage operation of a chosen kind/file type (before or after its effect, or inside a write), each with a seeded durable image per file (unsynced tail lost/kept/cut/cut+zero/cut+garbage); after every crash the DB must reopen, a full scan must equal apply(T) for a subset T of issued batches containing every sync-acknowledged batch and committed transaction, then the program continues under all oracles. 20% of the cases are concurrent: 2..6 writers on disjoint keys (sync/non-sync mixes, merged groups), one crash, reopen: every Sync-acknowledged write survives and each client's surviving writes form a prefix-closed, batch-atomic subset. 6% of the cases use keys of several KiB (manifest and journal records that span 32 KiB blocks) with crash points biased to manifest writes. Thorough additionally enumerates every storage event index of sampled programs as the crash point. Non-trivial: a crash fired and a flush or table write had happened. Distinct by event-log hash."},
+	"C05": {"exploration", "2..5 concurrent clients issuing multi-key batches, puts, deletes, gets, snapshot reads and iterator scans over <=8 keys while flush/compaction goroutines run under the seeded scheduler; the recorded history (invoke/return stamped with the scheduler's global step counter) is checked for linearizability against a sequential map with porcupine, plus a cross-key atomicity pre-check. 40% of the transactions create an iterator half-way through a body that outgrows the write buffer (it must keep showing the transaction's earlier writes); every snapshot stays open over the client's next operation and is read a second time (snap-unstable). Non-trivial: at least two client operations overlapped. Distinct by event-log hash."},
 	"C06": {"exploration", "write-heavy programs over all comparers and tiny size knobs; on EVERY version edit persisted to the manifest (decoded at the storage seam by an independent decoder) the live table set is checked: files exist with recorded size, entries strictly increasing, recorded bounds equal first/last entry, levels>=1 sorted and disjoint in user keys, shallower entries newer than deeper ones per user key. 12% of the cases lose the manifest after a settled shutdown, run Recover (every table then sits in level 0 in file-number order) and continue with a write-heavy program, the same conditions checked on every edit. Non-trivial: a table was written. Distinct by event-log hash."},
-	"C07": {"exploration", "programs with long-lived iterators/snapshots, discarded transactions, sleeps beyond the 5 min reference-cache expiry, reopen; oracles: no Remove of a table live in the current version, no read of an already removed table, iterators stay correct, and at scheduler-level quiescence (all DB goroutines blocked) storage holds exactly live tables + live journal + live manifest. Variants: transaction iterators that outlive Commit/Discard; more than 256 version changes behind a pinned iterator (tiny write buffer, 280-420 flushes); failed flushes/compactions (faults on table files only) followed by heal + settle; K rounds of overwrite-everything + full compaction with the table bytes after round K bounded by twice those after round 1. Non-trivial: a table was written. Distinct by event-log hash."},
-	"C08": {"fault_enumeration", "programs under 1..4 injected storage failures (create/open/read/write/short write/sync/close/remove/rename/setmeta/list x journal/table/manifest x position x window length) followed by continued use and close+reopen; failed writes are indeterminate in the model, acknowledged writes must stay visible, no read may return a value no consistent assignment explains. 25% of the cases are concurrent writers on disjoint keys under the fault plan incl. Close racing a retried transaction commit; 15% of the fault cases are bit rot at rest (bytes inside table blocks altered between close and reopen: reads fail or return original data). 15% of the fault cases build a deep tree, delete most keys and inject table-operation failures while the deletion markers are compacted downward (failed and retried compactions). Thorough additionally enumerates every storage event index of sampled programs as the position of a single failure. A control run without faults attributes a mismatch to the faults. Non-trivial: at least one fault fired. Distinct by event-log hash."},
+	"C07": {"exploration", "programs with long-lived iterators/snapshots, discarded transactions, sleeps beyond the 5 min reference-cache expiry, reopen; oracles: no Remove of a table live in the current version, no read of an already removed table, iterators stay correct, and at scheduler-level quiescence (all DB goroutines blocked) storage holds exactly live tables + live journal + live manifest. Variants: transaction iterators that outlive Commit/Discard; more than 256 version changes behind a pinned iterator (tiny write buffer, 280-420 flushes); failed flushes/compactions (faults on table files only) followed by heal + settle; K rounds of overwrite-everything + full compaction with the table bytes after round K bounded by twice those after round 1. The fault variant also fails table opens/reads and (40%) manifest writes/syncs, then heals, writes, compacts and only then settles; programs call Stats/GetProperty/SizeOf with bounds inside tables. Non-trivial: a table was written. Distinct by event-log hash."},
+	"C08": {"fault_enumeration", "programs under 1..4 injected storage failures (create/open/read/write/short write/sync/close/remove/rename/setmeta/list x journal/table/manifest x position x window length) followed by continued use and close+reopen; failed writes are indeterminate in the model, acknowledged writes must stay visible, no read may return a value no consistent assignment explains. 25% of the cases are concurrent writers on disjoint keys under the fault plan incl. Close racing a retried transaction commit; 15% of the fault cases are bit rot at rest (bytes inside table blocks altered between close and reopen: reads fail or return original data). 15% of the fault cases build a deep tree, delete most keys and inject table-operation failures while the deletion markers are compacted downward (failed and retried compactions). 10% of the fault cases discard transactions whose tables were read (cached blocks) while removing table files fails. Thorough additionally enumerates every storage event index of sampled programs as the position of a single failure. A control run without faults attributes a mismatch to the faults. Non-trivial: at least one fault fired. Distinct by event-log hash."},
 	"C09": {"exploration", "sequential and concurrent programs with injected failures on paths holding the write lock / commit lock / waiting for compaction, and Close at a seeded point; after the (finite) fault plan is exhausted every call must return within 600 s of simulated time; a hang reports the blocked call and site. Programs include SetReadOnly in the middle of a history followed by every write entry point with every Sync/NoWriteMerge combination (persistent-error paths). 12%: Close racing a transaction commit retried under manifest faults; 10% of sequential cases: bit rot at rest, then writes and compactions (once a compaction meets the damage every call must fail at once); 15% of concurrent cases: one client calls SetReadOnly among the writers. Thorough additionally enumerates every storage event index of sampled programs as the position of a single failure. Non-trivial: a fault fired. Distinct by event-log hash."},
-	"C10": {"exploration", "2..6 concurrent writers (merge on/off, sizes straddling the merge limit, oversized batches) plus Close/transaction/CompactRange competing for the write lock; oracles from the journal bytes at the storage seam (each acknowledged write in exactly one record, disjoint increasing sequence ranges), from the API (every writer returns exactly once), porcupine linearizability with merged records atomic, and bounded liveness. Further oracles: at acknowledgement every value of the write is in a journal record; at a Sync acknowledgement those bytes are synced; the caller's batch is byte-identical after Write (no merged records left in it). 15%: one client calls SetReadOnly among the writers, half of the time while a flush is failing and being retried. Non-trivial: two writers overlapped. Distinct by event-log hash."},
-	"C11": {"exploration", "transaction-heavy programs: bodies of any size (several internal flushes), reads through the transaction checked against model-at-open + own writes, commit/discard, reopen, quiescent file-residue check; also under crash and fault plans. 15% of the cases: an explicit transaction whose commit hits failing manifest syncs and is retried while another client closes the DB, then reopen (all or nothing, Open succeeds). Thorough additionally enumerates every storage event index of sampled programs as a crash point or single failure. Non-trivial: a table was written. Distinct by event-log hash."},
+	"C10": {"exploration", "2..6 concurrent writers (merge on/off, sizes straddling the merge limit, oversized batches) plus Close/transaction/CompactRange competing for the write lock; oracles from the journal bytes at the storage seam (each acknowledged write in exactly one record, disjoint increasing sequence ranges), from the API (every writer returns exactly once), porcupine linearizability with merged records atomic, and bounded liveness. Further oracles: at acknowledgement every value of the write is in a journal record; at a Sync acknowledgement those bytes are synced; the caller's batch is byte-identical after Write (no merged records left in it). 15%: one client calls SetReadOnly among the writers, half of the time while a flush is failing and being retried. 12%: journal write/sync failures among the writers. Non-trivial: two writers overlapped. Distinct by event-log hash."},
+	"C11": {"exploration", "transaction-heavy programs: bodies of any size (several internal flushes), reads through the transaction checked against model-at-open + own writes, commit/discard, reopen, quiescent file-residue check; also under crash and fault plans. 15% of the cases: an explicit transaction whose commit hits failing manifest syncs and is retried while another client closes the DB, then reopen (all or nothing, Open succeeds). Thorough additionally enumerates every storage event index of sampled programs as a crash point or single failure. 12%: plain concurrent programs (transactions, snapshot takers re-reading their snapshots later, readers, writers). Non-trivial: a table was written. Distinct by event-log hash."},
 	"C12": {"fault_enumeration", "journal writer over simulated file with seeded record lengths (0..several blocks, block-end remainders 0..7) and flush patterns; reader (strict and tolerant) over intact bytes, every truncation offset (small journals: all; large: seeded sample) and byte damage; oracle: intact = exact sequence; damaged = never panics, tolerant yields original records in order minus those touching a damaged block, strict stops with an error. 40%: the Reader first reads the intact stream and is Reset onto the stream under test (as recovery does); 30%: the Writer is Reset onto fresh streams at seeded points with records still buffered, and every earlier stream must read back exactly. Non-trivial: >=2 records. Distinct by input hash."},
-	"C13": {"fault_enumeration", "table writer -> simulated file -> table reader with seeded sorted pair sets and layout knobs; intact: exact Get/Find/iteration and non-decreasing offsets; then single-byte alterations inside checksummed blocks (all bytes for small tables, seeded for large): every result is an original pair or an error. Find/FindKey through the filter must return every stored key. Non-trivial: >=2 entries. Distinct by input hash."},
+	"C13": {"fault_enumeration", "table writer -> simulated file -> table reader with seeded sorted pair sets and layout knobs; intact: exact Get/Find/iteration and non-decreasing offsets; then single-byte alterations inside checksummed blocks (all bytes for small tables, seeded for large): every result is an original pair or an error. Find/FindKey through the filter must return every stored key. Damaged tables are also read through the filter. Non-trivial: >=2 entries. Distinct by input hash."},
 	"C14": {"exploration", "memdb instrumented at statement granularity; one writer and 1..4 readers/iterators as simulated goroutines under the seeded scheduler; sequential runs compared with the ordered-map model incl. Len/Size; concurrent runs: no panic, iterator keys strictly increasing, every pair returned was stored, reads linearize against the writer's order. Slices handed out by Get/Find/iterators are kept by the readers and must stay byte-identical until Reset. Non-trivial: >=2 goroutines overlapped or >=10 ops. Distinct by event-log hash."},
-	"C16": {"exploration", "programs replayed with the bloom filter as a knob (bits 1..64, base 4..14, changed across reopens with/without AltFilters); results are compared with the model and, on mismatch, with a control run without filters so that only filter-caused differences are reported. Programs take snapshots (reads that select older versions); 10% lose the manifest, damage table blocks and run Recover under a filter policy. Non-trivial: a table was written. Distinct by event-log hash."},
+	"C16": {"exploration", "programs replayed with the bloom filter as a knob (bits 1..64, base 4..14, changed across reopens with/without AltFilters); results are compared with the model and, on mismatch, with a control run without filters so that only filter-caused differences are reported. Programs take snapshots (reads that select older versions); 10% lose the manifest, damage table blocks and run Recover under a filter policy. 8%: block checksums off for data blocks (Strict without StrictBlockChecksum) and filter blocks altered at rest: every stored key must still be found. Non-trivial: a table was written. Distinct by event-log hash."},
 	"C17": {"exploration", "cache (hash map + LRU) instrumented at statement granularity; 2..6 simulated goroutines doing Get/Release/Delete/Evict/EvictNS/EvictAll/SetCapacity/Close over a small key space incl. table growth/shrink; oracles: one live value per key, constructor once per residency, finaliser exactly once and only after all handles released, deletion callbacks exactly once, retained charge <= capacity at quiescence, no hang. A 'fill' operation grows the hash table (520-2200 nodes) right before Close/EvictAll/SetCapacity(0), so that these meet buckets that are still being migrated; after Close with every handle released each value is finalised exactly once. Non-trivial: >=2 goroutines. Distinct by event-log hash."},
 	"C18": {"exploration", "lifecycle programs after arbitrary histories: second Open on an owned storage, read-only open (no mutating storage call at all, yet all data readable), SetReadOnly, every public method after Close (closed error, no storage call), double Close, released snapshots/iterators, calls racing Close. Open guards: read-only / ErrorIfMissing Open of an empty storage fails and creates nothing, ErrorIfExist on an existing DB fails and changes nothing. After SetReadOnly (40% of those cases while a flush is failing and being retried under table-file faults) every write entry point with every Sync/NoWriteMerge combination, OpenTransaction and CompactRange answer ErrReadOnly. One case in 7 lays the settled image out in a real directory as file storage does, adds crash leftovers (pending CURRENT.<n>, CURRENT.bak, damaged/missing CURRENT, stray files) and requires a read-only OpenFile + Open to serve all data and leave every directory entry byte-identical. Reads racing Close (Get, Has, Snapshot.Get/Has) must find keys that were present all along or return the closed error. Non-trivial: data existed in both journal and tables or a race occurred. Distinct by event-log hash."},
 	"C19": {"exploration", "settled DB images with CURRENT/manifest removed, truncated or garbage and seeded damaged data blocks, then leveldb.Recover under the scheduler; oracle: exact contents without table damage; with damage: newest version in an undamaged block is returned, nothing invented. 40% of the cases use explicit Options.Strict levels (block checksums on, StrictRecovery and StrictReader off). 25%: the filter policy is changed (old one kept in AltFilters) right before the shutdown that precedes Recover, and one Options value serves the last session and Recover. Non-trivial: a table existed. Distinct by event-log hash."},
-	"C20": {"exploration", "programs that scribble over every argument buffer right after each call and over every returned Get value, with iterator Key/Value checked stable, under buffer pool/block cache/compression knobs; mismatches are confirmed against a control run without scribbling. Concurrent cases: the leader's batch must be byte-identical after Write. Every value returned by a Get is kept and must not change later. Concurrent cases (50%, mostly storm mode with slow clients) issue writes through Write, reuse the batch the moment Write returns (a poison record that must never reach the DB) and require an acknowledged batch to be in the journal already. Non-trivial: a table was written. Distinct by event-log hash."},
+	"C20": {"exploration", "programs that scribble over every argument buffer right after each call and over every returned Get value, with iterator Key/Value checked stable, under buffer pool/block cache/compression knobs; mismatches are confirmed against a control run without scribbling. Concurrent cases: the leader's batch must be byte-identical after Write. Every value returned by a Get is kept and must not change later. Concurrent cases (50%, mostly storm mode with slow clients) issue writes through Write, reuse the batch the moment Write returns (a poison record that must never reach the DB) and require an acknowledged batch to be in the journal already. Values include the empty value; scribbling covers the spare capacity behind a returned value (a caller may grow it in place). Non-trivial: a table was written. Distinct by event-log hash."},
 }
 
 // componentsFor: which code ran for real and which was a stub, per property.
@@ -108,7 +108,7 @@ func writeEvidence(prop, tier string, seed uint64, a *WorkerOut, wall time.Durat
 			"simdisk durability model: bytes up to the last successful Sync are durable, namespace operations are atomic and durable in issue order",
 			"yieldgen rewrites preserve Go semantics (checked by running the repository's own test suite on the instrumented tree in pass-through mode)",
 			"goroutines blocked on the same channel wake in FIFO order (Go runtime behaviour)",
-			"scheduling granularity: statements in leveldb, memdb, cache and table packages; synchronisation operations elsewhere",
+			"scheduling granularity: statements in leveldb, memdb, cache and table packages (field read-modify-writes such as x.f = append(x.f, ...) and x.f++ are split into read and write); synchronisation operations elsewhere",
 		},
 		"wall_s":     wall.Seconds(),
 		"violations": nviol,
